@@ -1149,10 +1149,16 @@ class FileStorage(
                             # We're undoing a blob modification operation.
                             # We have to copy the blob data
                             tmp = mktemp(dir=self.fshelper.temp_dir)
-                            with self.openCommittedBlobFile(
-                                    h.oid, userial) as sfp:
-                                with open(tmp, 'wb') as dfp:
-                                    cp(sfp, dfp)
+                            try:
+                                with self.openCommittedBlobFile(
+                                        h.oid, userial) as sfp:
+                                    with open(tmp, 'wb') as dfp:
+                                        cp(sfp, dfp)
+                            except:  # noqa: E722 do not use bare 'except'
+                                # nobody else knows about the copy yet
+                                if os.path.exists(tmp):
+                                    os.remove(tmp)
+                                raise
                             self._blob_storeblob(h.oid, self._tid, tmp)
 
                 new = DataHeader(h.oid, self._tid, ipos, otloc, 0, len(p))
